@@ -628,7 +628,11 @@ class BufferAnalysis:
         if isinstance(s, ast.Try):
             a = self.block(s.body, st, fr, ctl)
             out = a
-            for h in s.handlers:
+            # a try body made of plain name/attribute loads and stores (`t = self.state.fun`) raises only when a field of the chart is missing - a chart that was never
+            # constructed or started, which is outside what the obligations quantify over: its handlers are not entered
+            quiet = all(isinstance(b_, (ast.Assign, ast.Pass)) and all(isinstance(x_, (ast.Assign, ast.Name, ast.Attribute, ast.Constant, ast.expr_context)) for x_ in ast.walk(b_))
+                        for b_ in s.body)
+            for h in ([] if quiet else s.handlers):
                 out = out.join(self.block(h.body, st.join(a), fr, ctl))
             if s.orelse:
                 out = self.block(s.orelse, out, fr, ctl)
